@@ -592,6 +592,7 @@ async def schedule(ex, spawn, settle):
             spawn(c)
             ex.trace.append(("spawn", i, c.up, c.down, c.mode, c.nchunks))
         await settle()
+    empty_writes = 0
     released = 0
     import time as real_time
     t0 = real_time.monotonic()
@@ -786,6 +787,16 @@ async def schedule(ex, spawn, settle):
         ch = ex.choices()
         if ch:
             p = ch[0][1]
+            # a client that answers nothing but empty writes while the server's bytes lie unread is not waiting for the network at all:
+            # on a real socket (where an empty write returns at once) it would spin
+            if p.rec["op"] == "write" and not (p.rec.get("data") or b"") and not sc and any(pp.out for pp in ex.peers):
+                empty_writes += 1
+            else:
+                empty_writes = 0
+            if empty_writes >= 60:
+                ex.violations.append(("C13:busy-wait", {"callers": [(c.idx, c.state, c.up, c.down) for c in ex.callers if c.state != "done"],
+                                                        "what": "60 empty writes in a row while the server's frames lie unread and nobody reads"}))
+                break
             if cfg.get("fault_at") == released and p.rec["op"] in ("read", "write", "connect_tcp", "start_tls"):
                 name = {"read": "ReadError", "write": "WriteError", "connect_tcp": "ConnectError", "start_tls": "ConnectError"}[p.rec["op"]]
                 if cfg.get("fault_timeout"):
